@@ -54,17 +54,71 @@ def mpe(prog, max_worlds=1 << 14):
     ei = [(ai(a), v) for a, v in eatoms]
     has_neg = any(r[2] for r in rrules)
     best = None
-    for combo in itertools.product(*optlists):
+    consistent = {}
+    ranges = [range(len(ol)) for ol in optlists]
+    for pick in itertools.product(*ranges):
+        combo = [ol[k] for ol, k in zip(optlists, pick)]
         w = F(1)
         for o, p in combo:
             w *= p
-        if w == 0 or (best is not None and w <= best):
-            continue
         rules = list(det)
         for g, (o, p) in zip(gl, combo):
             if o is not None:
                 rules.extend(chr_.get((g, o), ()))
         true, undef = worlds.wfm(rules, len(idx), has_neg)
-        if all((i in true) == v for i, v in ei):
+        okc = all((i in true) == v for i, v in ei)
+        consistent[pick] = okc
+        if okc and w > 0 and (best is None or w > best):
             best = w
+    # choice groups that are syntactically reachable from the evidence but on which its truth never depends: the system may or may
+    # not keep them in the ground program (a deterministically true alternative proof makes it drop them); each contributes the
+    # factor max(option probability) to the optimum when it is kept
+    LAST_INFO["irrelevant_factors"] = []
+    LAST_INFO["irrelevant_groups"] = []
+    for gi, ol in enumerate(optlists):
+        dep = False
+        for pick, okc in consistent.items():
+            if pick[gi] != 0:
+                continue
+            for k in range(1, len(ol)):
+                alt = pick[:gi] + (k,) + pick[gi + 1:]
+                if consistent[alt] != okc:
+                    dep = True
+                    break
+            if dep:
+                break
+        if not dep:
+            LAST_INFO["irrelevant_factors"].append(max(p for _o, p in ol))
+            LAST_INFO["irrelevant_groups"].append([p for _o, p in ol])
     return ("ok" if best is not None else "unsat", best, nw, len(gl))
+
+
+LAST_INFO = {"irrelevant_factors": [], "irrelevant_groups": []}
+
+
+def feasible_optima(best, groups, limit=200000):
+    """optima the system may legitimately report when the choice groups in `groups` (option probability lists, last = merged rest) are
+    irrelevant to the evidence: each such group may be absent from the ground program (factor 1) or present with any subset S of its
+    options kept separate and the others merged (factor max(max S, 1 - sum S)).  Returns a sorted list of floats (deduplicated)."""
+    import itertools
+    base = float(best)
+    for g in groups:
+        base /= float(max(g))
+    reach = {round(base, 15): base}
+    for g in groups:
+        ps = [float(x) for x in g[:-1]]
+        fs = {1.0}
+        for r in range(0, len(ps) + 1):
+            for S in itertools.combinations(ps, r):
+                f = max(list(S) + [1.0 - sum(S)])
+                if f > 0:
+                    fs.add(round(f, 12))
+        nxt = {}
+        for v in reach.values():
+            for f in fs:
+                w = v * f
+                nxt[float("%.9e" % w)] = w
+        reach = nxt
+        if len(reach) > limit:
+            return None
+    return sorted(reach.values())
